@@ -23,11 +23,14 @@ def check(ctx):
     probe = [f[1:] for f in m.funcs if 'HashMapImNS_5ScoreELm262144EE5probeERKmRb' in f][0]
     insert = [f[1:] for f in m.funcs if 'HashMapImNS_5ScoreELm262144EE6insertERKmRKS1_' in f][0]
     SETUPS = ['_ZN6engine14PositionScorer5setupILNS_5ColorE0EEEvRKNS_8PositionE', '_ZN6engine14PositionScorer5setupILNS_5ColorE1EEEvRKNS_8PositionE']
-    c, h, info = ctx.translate(m, [SCORE] + SETUPS, stubs=c01.SLIDERS + ['_ZN6engine7endgame5scoreERKNS_8PositionE', probe, insert], overrides=tables)
+    PW = '_ZN6engine14PositionScorer20score_pawns_for_sideILNS_5ColorE0EEENS_5ScoreERKNS_8PositionE'; PB = PW.replace('ColorE0', 'ColorE1')
+    OUTP = ['_ZN6engine12get_outpostsILNS_5ColorE0EEEmRKNS_8PositionE', '_ZN6engine12get_outpostsILNS_5ColorE1EEEmRKNS_8PositionE']
+    c, h, info = ctx.translate(m, [SCORE, PW, PB] + OUTP + SETUPS, stubs=c01.SLIDERS + ['_ZN6engine7endgame5scoreERKNS_8PositionE', probe, insert], overrides=tables)
     layout.field_header(ctx, m, [layout.POSITION_FIELDS, layout.HASHKEY_FIELDS, SCF], ['position.h', 'score.h'])
     header = open(h).read()
     mm = re.search(r'^(.*?)\b%s\(' % re.escape(probe), header, re.M); ent_t = mm.group(1).strip().rstrip('*').strip()
-    glue = ['static %s PH_ENTRY;' % ent_t, sc.proto_stub(header, probe, '*v_2 = 0; return &PH_ENTRY;'), sc.proto_stub(header, insert, '')]
+    mm2 = re.search(r'^(.*?)\b%s\(' % re.escape(PW), header, re.M); pawns_t = mm2.group(1).strip()
+    glue = ['#define PAWNS_T %s' % pawns_t, '#define PAWNS_W %s' % PW, '#define PAWNS_B %s' % PB, 'static %s PH_ENTRY;' % ent_t, sc.proto_stub(header, probe, '*v_2 = 0; return &PH_ENTRY;'), sc.proto_stub(header, insert, '')]
     open(ctx.path('c14_glue.h'), 'w').write('\n'.join(glue) + '\n')
     cand = ['KPkp'] if quick else ['KPkp', 'KRkr', 'KNkn', 'KQkq', 'KBkn', 'KBkb', 'KRkq', 'KRPkr', 'KQkrr', 'KNPkp', 'KRRkr', 'KPPkp', 'KBPkn']
     gens = general_materials(ctx, cand)
@@ -41,6 +44,10 @@ def check(ctx):
         mat = material.parse(ms); fn = 'h_setup_%s' % ms
         H.append('void %s(void) { static const uint32_t mat[] = %s; setup_case(mat, %d); }' % (fn, material.cinit(mat), len(mat)))
         names.append((fn, {'material': ms, 'function': 'PositionScorer::setup<WHITE>, setup<BLACK> from two arbitrary scratch states', 'squares/side/rights': 'symbolic'}, mat))
+    for ms in (('KPPkp', 'KPkpp') if quick else ('KPPkp', 'KPkpp', 'KPPkpp', 'KPPPkp', 'KPkppp')):
+        mat = material.parse(ms); fn = 'h_term_%s' % ms
+        H.append('void %s(void) { static const uint32_t mat[] = %s; term_case(mat, %d); }' % (fn, material.cinit(mat), len(mat)))
+        names.append((fn, {'material': ms, 'terms': 'get_outposts<c>, score_pawns_for_side<c> for both colours vs the mirrored position', 'squares/side': 'symbolic'}, mat))
     hp = ctx.path('h_c14.c'); open(hp, 'w').write('\n'.join(H) + '\n')
     D = ['S_USE_BITBOARD_ORACLE']
     gb = ctx.gotocc('c14', [c, hp], D); gbw = ctx.gotocc('c14w', [c, hp], D + ['WITNESS'])
@@ -48,7 +55,7 @@ def check(ctx):
     to = 1200 if quick else 3000
     for fn, smp, mat in names:
         if ctx.only and not re.search(ctx.only, fn): continue
-        us = mc.unwindset(len(mat)); us.update({'pos_mirror.0': 65, 'pos_mirror.1': 9, 'scratch.0': 3, 'scratch.1': 8, 'setup_case.0': 3, 'setup_case.1': 7})
+        us = mc.unwindset(len(mat)); us.update({'pos_mirror.0': 65, 'pos_mirror.1': 9, 'scratch.0': 3, 'scratch.1': 8, 'setup_case.0': 3, 'setup_case.1': 7, 'flipv.0': 9, 'term_case.0': 3})
         qs.append(Query(fn, gb, fn, us, timeout=to, sample=smp, max_unwind={'*': 30}))
         ws.append(Query('w_' + fn, gbw, fn, us, timeout=to, sample=smp, meta={'of': fn}, expect='witness', max_unwind={'*': 30}))
     res = ctx.run_queries(qs + ws, label='c14')
@@ -60,6 +67,9 @@ def check(ctx):
         out = ctx.sh([exe, 'pure', fen], ok=(0, 1, 3))
         path = report.save_replay(ctx, r.q.name, {'harness': r.q.name, 'fen': fen, 'values': [ce.get('ce_v1'), ce.get('ce_v2')], 'native_output': out.strip().split('\n')})
         conf = 'REPRODUCED' in out and 'NOT-REPRODUCED' not in out
+        if r.q.name.startswith('h_term'):
+            out2 = ctx.sh([exe, 'terms', fen], ok=(0, 1, 3)); conf2 = 'REPRODUCED' in out2 and 'NOT-REPRODUCED' not in out2
+            return {'confirmed': True if conf2 else None, 'strict': True, 'key': 'term-symmetry', 'path': path, 'text': '%s: position "%s": %s | native full evaluation vs mirror: %s' % (r.q.name, fen, '; '.join(d for _, d in r.failed[:2]), out2.strip().replace('\n', ' / ')[:200])}
         if r.q.name.startswith('h_setup'):
             # sufficient-condition query: only a natively demonstrated dependence on earlier evaluations is a violation
             if not conf: ctx.notes.append('h_setup query failed (field %s colour %s kind %s differs) but no evaluation difference could be demonstrated natively: reported as a note, not as a violation' % (ce.get('ce_field'), ce.get('ce_color'), ce.get('ce_kind')))
